@@ -64,7 +64,7 @@ EDGE_TS = [0, 1, 127, 128, 255, 256, 2 ** 15 - 1, 2 ** 15, 2 ** 23 - 1, 2 ** 23,
            2 ** 31 - 2, 2 ** 31 - 1]
 
 
-MARKERS = ['0001', '00ff', '0100', 'ff00', '000000', '01', '80', '00ff00', '00' * 40 + '01',
+MARKERS = ['0001', '00ff', '0100', 'ff00', '000000', '01', '80', '00ff00', '', '', '00' * 40 + '01',
            'ffff']
 
 
@@ -195,7 +195,10 @@ def gen_step(rng, cell, clocks, vname, at_us, thr, fault_free):
     elif a == 'cross_lock':
         step['witness'] = 'chain' if lock == 'single' else 'single'
     elif a == 'bad_flag':
-        step['flag'] = rng.choice(['04', '08', '20'])
+        # a signature flag the lock does not allow: any one of the eight bits
+        free = [b for b in range(8) if not (int(step['allowed'], 16) >> b) & 1]
+        step['flag'] = '%02x' % ((1 << rng.choice(free)) |
+                                 (int(step['allowed'], 16) if rng.chance(1, 3) else 0))
     if not fault_free and rng.chance(1, 15):
         # the clock system call itself fails, once, during the validation
         step['faults'].append({'at_read': rng.below(2 * ln + 1), 'kind': 'fail'})
@@ -417,8 +420,15 @@ def execute(plan, run):
         if atk:
             akind = atk['kind']
             items = attack(items, atk, step, keys, run)
-            src = '\n'.join('push x' + it.hex() for it in items)
-            w = T.Script.from_src(src)
+            if all(items):
+                src = '\n'.join('push x' + it.hex() for it in items)
+                w = T.Script.from_src(src)
+            else:
+                # (an empty item has no `push x` spelling: OP_PUSH1 with length 0)
+                run.probe('empty_item_in_witness')
+                w = T.Script('# crafted witness #', b''.join(
+                    bytes([F.opcodes_inverse['OP_PUSH1'][0], len(it)]) + it if len(it) < 256 else
+                    T.compile_script('push x' + it.hex()) for it in items))
         lock = real('make_delegate_key_lock', maybe_twice, tw_b,
                     T.make_delegate_key_lock if step['lock'] == 'single'
                     else T.make_delegate_key_chain_lock,
